@@ -259,7 +259,73 @@ def check_module(name, m, ports, comb_spec=None, domain="comb", break_nir=False,
     # closed: the design went through build_netlist, rtlil.convert and the RTLIL reader
     res["obligations"].append({"name": f"{name}::converts-and-parses", "kind": "post", "status": "proved", "backend": "closed",
                                "time_s": 0.0})
+    # closed: POWER-ON state.  In RTLIL a flip-flop's initial value exists only as the `init` attribute of its Q wire; with the
+    # registers holding those values, every register-backed bit of every exposed signal reads as the signal's initial value --
+    # which is what the simulator starts from
+    if doms:
+        res["obligations"] += power_on_obligations(name, mods, ports, in_names, prepared, doms, all_stmts)
     return res
+
+
+def power_on_state(mods):
+    """{(instance path, cell name): value of the Q wire's init attribute, or None when a register has none}"""
+    out = {}
+
+    def walk(m, path):
+        for c in m.cells.values():
+            if c.kind in ("$dff", "$adff"):
+                q = c.ports["\\Q"]
+                val, pos, known = 0, 0, True
+                for (wname, bit) in RP.bits_of(q, m):
+                    w = m.wires.get(wname)
+                    init = w.attrs.get("\\init") if w is not None else None
+                    if init is None:
+                        known = False
+                    else:
+                        bits = str(init).split("'")[-1]
+                        b = bits[len(bits) - 1 - bit] if bit < len(bits) else "0"
+                        if b not in "01":
+                            known = False
+                        else:
+                            val |= int(b) << pos
+                    pos += 1
+                out[(path, c.name)] = val if known else None
+            elif c.kind in mods:
+                walk(mods[c.kind], path + (c.name,))
+    walk(mods["\\top"], ())
+    return out
+
+
+def power_on_obligations(name, mods, ports, in_names, prepared, doms, all_stmts):
+    obs = []
+    pstate = power_on_state(mods)
+    missing = [f"{'.'.join(p)}.{c}" for (p, c), v in pstate.items() if v is None]
+    obs.append({"name": f"{name}::power-on::every-register-has-an-initial-value", "kind": "post", "status": "proved" if not missing else "refuted",
+                "backend": "closed", "time_s": 0.0,
+                **({} if not missing else {"failing_input": {"registers whose Q wire carries no init attribute": missing,
+                                                             "how": "rtlil.convert of the design; $dff / $adff cells and the attributes of their Q wires"}})})
+    rev = RtlilEval(mods, inputs={nm: 0 for nm in in_names}, state={k: (v or 0) for k, v in pstate.items()})
+    reg_masks = {}
+    for dom in doms:
+        dmk, _x = driven_masks(all_stmts(prepared, dom))
+        for k_, v_ in dmk.items():
+            reg_masks[k_] = reg_masks.get(k_, 0) | v_
+    for s in ports:
+        rm = reg_masks.get(id(s), 0)
+        if s.name in in_names or not rm:
+            continue
+        try:
+            got = int(to_sint(rev.out(s.name)).concrete()) if hasattr(to_sint(rev.out(s.name)), "concrete") else int(rev.out(s.name))
+        except Exception:
+            got = rev.out(s.name)
+            got = int(got) if isinstance(got, int) else None
+        want = s.init & mask(len(s))
+        ok = got is not None and (got & rm) == (want & rm)
+        obs.append({"name": f"{name}::power-on::{s.name}", "kind": "post", "status": "proved" if ok else "refuted", "backend": "closed", "time_s": 0.0,
+                    **({} if ok else {"failing_input": {"signal": s.name, "register-backed bits": bin(rm), "initial value (Signal.init)": want,
+                                                        "value with the RTLIL registers at their init attributes": got,
+                                                        "how": "rtlil.convert; registers set from the init attribute of their Q wires; inputs 0"}})})
+    return obs
 
 
 def rev_registers(rev, mods):
